@@ -230,6 +230,21 @@ static void rt_lock_hook(void) {
     if (rt_lock_events == rt_inject_at) { rt_inject_fn *f = rt_inject_f; rt_inject_f = 0; rt_in_hook = 1; f(); rt_in_hook = 0; }
   }
 }
+/* The same at atomic-operation granularity (lock-free code): the k-th atomic instruction (load, store, exchange, compare-exchange, fetch-op)
+   executed after vf_ainject_arm(fn, k) is preceded by fn() - the complete operation of another thread lands in the window between two atomic
+   steps of the operation in progress. ir2c emits RT_ATOMIC_POINT() in front of every atomic instruction of a TU that uses the hook. */
+rt_inject_fn *rt_ainject_f; int rt_ainject_at; int rt_atomic_events;
+void vf_ainject_arm(rt_inject_fn *fn, int k) { rt_ainject_f = fn; rt_ainject_at = k; rt_atomic_events = 0; }
+int vf_ainject_pending(void) { return rt_ainject_f != 0; }
+void vf_ainject_disarm(void) { rt_ainject_f = 0; rt_ainject_at = 0; }
+int vf_ainject_events(void) { return rt_atomic_events; }
+static void rt_atomic_hook(void) {
+  if (rt_ainject_f != 0 && !rt_in_hook) {
+    rt_atomic_events++;
+    if (rt_atomic_events == rt_ainject_at) { rt_inject_fn *f = rt_ainject_f; rt_ainject_f = 0; rt_in_hook = 1; f(); rt_in_hook = 0; }
+  }
+}
+#define RT_ATOMIC_POINT() rt_atomic_hook()
 static int rt_mutex_lock(void *m) {
   int *st = (int*)m;
   rt_lock_hook();
